@@ -189,6 +189,20 @@ def run(m: Model, r: Report, tier: str) -> None:
             want_tail = "AND r.id > ? ORDER BY r.id LIMIT 1" if i == 0 else "AND r.id <= ? ORDER BY r.id LIMIT 1"
             r.check(okq and tail.endswith(want_tail) and "r.request_pdu = ?" in sql, "R3", f"{rad.qualname}#query[{tag}]",
                     f"{'does not compile: ' + str(err) if err else ''} placeholders={sql.count('?')} parameters={len(params)} tail=`{tail[-50:]}`", loc=rad.loc)
+            # NULL-safe comparison per key: SQL `= NULL` never matches, so keys whose value is None need IS NULL and all others a bound value
+            wrong = []
+            for col, mapping in (("r.state", state), ("s.properties_pre", props or {})):
+                for k_, v_ in mapping.items():
+                    frag_null = f"json_extract({col}, '$.{k_}') IS NULL"
+                    frag_eq = f"json_extract({col}, '$.{k_}') = ?"
+                    if v_ is None and (frag_null not in sql or frag_eq in sql):
+                        wrong.append(f"{k_}=None is not compared with IS NULL")
+                    if v_ is not None and (frag_eq not in sql or frag_null in sql):
+                        wrong.append(f"{k_}={v_!r} is not compared with a bound value")
+            r.check(not wrong, "R3", f"{rad.qualname}#null-safe[{tag}]", f"{wrong}: rows recorded in that state / with those properties can never be found", loc=rad.loc)
+            sel_cols = [c_.strip() for c_ in re.sub(r"\s+", " ", sql).split(" FROM ")[0].replace("SELECT ", "").split(",")]
+            r.check(sel_cols == ["r.id", "r.response_pdu"], "R3", f"{rad.qualname}#select-list[{tag}]",
+                    f"the query selects {sel_cols}; the cursor is taken from column 0 (row id) and the reply from column 1 (response_pdu)", loc=rad.loc)
             if ecu:
                 r.check("e.name = ?" in sql and "a.ecu = e.id" in sql and "s.address = a.id" in sql and "r.run = s.id" in sql, "R3",
                         f"{rad.qualname}#ecu-selection[{tag}]", "selection by ECU name must join scan_result -> scan_run -> address -> ecu", loc=rad.loc)
@@ -205,6 +219,9 @@ def run(m: Model, r: Report, tier: str) -> None:
     r.check(len(adv) == 1 and len(nul) == 1 and adv[0].id in dom[nul[0].id], "R4", f"{rad.qualname}#cursor-advances",
             "the replay cursor must advance for every matched row, also when the recorded reply is NULL; otherwise a repeated request keeps "
             "hitting the same 'silence' row", loc=rad.loc)
+    pdu_src = [n for n in walk_no_nested(rad.node) if isinstance(n, (ast.Assign, ast.AnnAssign)) and n.value is not None and isinstance(n.value, ast.Subscript)
+               and isinstance(n.value.slice, ast.Constant) and n.value.slice.value == 1 and adv and ast.unparse(n.value.value) == ast.unparse(adv[0].ast.value.value)]
+    r.check(len(pdu_src) == 1, "R4", f"{rad.qualname}#reply-column", "the reply bytes must be taken from column 1 of the matched row (column 0 is the row id)", loc=rad.loc)
     src = ast.unparse(rad.node)
     r.check("self.state.reset()" in src and src.rstrip().endswith("return None"), "R4", f"{rad.qualname}#null-reply", "a NULL reply must reset the state and yield no response", loc=rad.loc)
     r.check(m.has(rad, "service.UDSResponse.parse_dynamic(unhexlify(response_pdu))"), "R4", f"{rad.qualname}#client-parser", "recorded bytes must be parsed with the client's dynamic parser", loc=rad.loc)
